@@ -2,5 +2,5 @@ package main
 
 // corpus returns the regression histories (witnesses W1..W13 and minimized failures).
 func corpus() []*History {
-	return nil
+	return corpusC17()
 }
